@@ -171,14 +171,16 @@ dense_index.rule_id = "C05.DENSE-INDEX"
 
 # --------------------------------------------------------------------------------------------
 def _tol_compare(fn: FuncInfo):
-    """Returns list of (Compare node, op, lhs is norm-of-difference, rhs text)."""
+    """Comparisons of a distance (norm of a difference) against a named constant:
+    list of (Compare node, op name, lhs is norm-of-difference, rhs text)."""
     out = []
     for n in ast.walk(fn.node):
         if isinstance(n, ast.Compare) and len(n.ops) == 1:
             lhs, rhs = n.left, n.comparators[0]
             txt_r = ast.unparse(rhs)
-            if txt_r.split(".")[-1] == "TOL":
-                is_norm = isinstance(lhs, ast.Call) and (attr_chain(lhs.func) or "").split(".")[-1] == "norm" and lhs.args and isinstance(lhs.args[0], ast.BinOp) and isinstance(lhs.args[0].op, ast.Sub)
+            is_norm = isinstance(lhs, ast.Call) and (attr_chain(lhs.func) or "").split(".")[-1] == "norm" and lhs.args and isinstance(lhs.args[0], ast.BinOp) and isinstance(lhs.args[0].op, ast.Sub)
+            is_const = isinstance(rhs, (ast.Name, ast.Attribute)) and txt_r.split(".")[-1].isupper()
+            if txt_r.split(".")[-1] == "TOL" or (is_norm and is_const):
                 out.append((n, type(n.ops[0]).__name__, bool(is_norm), txt_r))
     return out
 
@@ -196,7 +198,7 @@ def tolerance_siblings(repo: Repo) -> RuleRun:
         r.require(len(cmps) >= 1, f"{fn.qualname}: no comparison against TOL found")
         for n, op, is_norm, rhs in cmps:
             tgt = repo.resolve_expr(fn.module, n.comparators[0])
-            consts.add(ast.unparse(tgt[1]) if isinstance(tgt, tuple) and tgt[0] == "const" else rhs)
+            consts.add(f"{rhs.split('.')[-1]}={ast.unparse(tgt[1])}" if isinstance(tgt, tuple) and tgt[0] == "const" else rhs)
             r.check(op == "Lt" and is_norm, fn, "norm(a - b) < TOL", f"{fn.qualname} tests coincidence with '{ast.unparse(n)}' - the siblings use the strict 'norm(a - b) < TOL'", n, key="compare")
     r.check(len(consts) == 1, fns[0], f"one tolerance constant ({consts})", f"the coincidence tests use different tolerance constants: {sorted(consts)}", key="same-constant")
     # find_unique / find_duplicated scan the complete table
